@@ -16,11 +16,10 @@ class ensure_trailing_slash_c:
         return result == (href if href.endswith("/") else href + "/")
 
 
-@contract("xandikos.webdav.create_href", params={"href": "str", "base_href": "opt[str]"},
+@contract("xandikos.webdav.create_href", params={"href": "str", "base_href": "none"}, defaults={"base_href": None},
           returns="obj:xml.Element")
 class create_href_c:
-    def requires(base_href):
-        return base_href is None
+    """Without a base (see contracts/webdav_props.py for the variant with one)."""
 
     def ensures(href, result):
         return result.tag == "{DAV:}href" and result.text == urllib.parse.quote(href)
